@@ -196,6 +196,14 @@ def gen_c01(rng):
         prog["debug_log"] = True
     if kind != "dispatcher" and rng.random() < 0.1:
         prog["second_server"] = "early"  # a server on the other kind of listener lives in the same process
+    if kind == "dispatcher" and rng.random() < 0.01:
+        # a long life: more than a thousand exchanges through one proxy with a History
+        del clients[1:]
+        clients[0]["history"] = True
+        methods["abs_burst"] = {"kind": "builtin", "builtin": "abs", "ret": 0}
+        clients[0]["ops"].append(["burst", ["abs_burst"], rng.choice([1030, 1100])])
+        prog["big"] = True
+        return prog
     if kind == "dispatcher" and rng.random() < 0.25:
         # nested exchanges: one client with a History; some of its calls go to a method that calls another one through
         # a second proxy recording into the same History
@@ -254,6 +262,9 @@ def analyse_c01(program, s, run, verdict):
         elif op[0] == "call2":
             # the call that follows a new registration of the same name: the new callable must run
             check_one(o["ci"], o["oi"], [op[1][0] + "@2"], op[2], o["out"], "call after re-registration")
+        elif op[0] == "burst":
+            if o["out"][0] != "burst" or o["out"][1] != op[2]:
+                v.append(Violation("C01", "return-value", "burst", "%d calls in a row: %r" % (op[2], o["out"])))
         elif op[0] == "hcall":
             if o["out"][0] != "hcall":
                 v.append(Violation("C01", "return-value", "handle-raised:%s" % o["out"][1], "calls through a kept handle raised %s" % (o["out"][1:],)))
@@ -318,7 +329,8 @@ def analyse_c01(program, s, run, verdict):
                 v.append(Violation("C01", "history", "nested-response-order", "History.responses is not the sequence of responses in the order they were received"))
         return v, h
     for ci, hist in sorted(run.histories.items()):
-        nops = sum((len(op[2]) if op[0] == "hcall" else 1) for op in program["clients"][ci]["ops"] if op[0] in ("call", "call2", "batch", "notify", "hcall"))
+        nops = sum((len(op[2]) if op[0] == "hcall" else op[2] if op[0] == "burst" else 1) for op in program["clients"][ci]["ops"]
+                   if op[0] in ("call", "call2", "batch", "notify", "hcall", "burst"))
         if len(hist.requests) != nops or len(hist.responses) != nops:
             v.append(Violation("C01", "history", "length", "History of client %d has %d requests / %d responses for %d exchanges" % (
                 ci, len(hist.requests), len(hist.responses), nops)))
@@ -463,7 +475,20 @@ def notif_bodies(rng, tok):
     return "[" + ", ".join(ents) + "]"
 
 
+def gen_c04_backlog(rng):
+    """More than a thousand notifications handed to a notification pool whose only worker is busy: a long backlog,
+    every one of them executed exactly once in the end."""
+    n = rng.choice([1030, 1100])
+    sv = {"kind": "dispatcher", "family": "tcp", "version": 2.0, "npool": [1, 0], "pool_timeout": 2.0}
+    methods = {"slow": {"kind": "slow", "d": 1.0}, "push": {"kind": "sink"}}
+    ents = [["notify", "push", ["c0o1e%d" % i]] for i in range(n)]
+    clients = [{"version": None, "history": False, "ops": [["notify", "slow", ["c0o0"]], ["batch", ents]]}]
+    return {"server": sv, "net": {"seg": "whole", "delay": 0}, "methods": methods, "clients": clients, "lifecycle": "serve", "big": True}
+
+
 def gen_c04(rng):
+    if rng.random() < 0.002:
+        return gen_c04_backlog(rng)
     kind = rng.choice(["dispatcher", "dispatcher", "plain", "pooled", "pooled-user"])
     sv = {"kind": kind, "family": rng.choice(["tcp", "unix"]), "version": rng.choice([2.0, 2.0, 1.0])}
     if kind == "pooled-user":
@@ -729,13 +754,13 @@ def gen_c13_small(rng):
     """Few short concurrent dispatcher threads: every pre-emption point is likely to be tried."""
     sv = {"kind": "dispatcher", "family": "tcp", "version": rng.choice([2.0, 2.0, 1.0]), "handlers": rng.random() < 0.3}
     methods = {"echo": {"kind": "echo"}, "fail": {"kind": "fail"}, "sub": {"kind": "sub"},
-               "bad": {"kind": rng.choice(["baddump", "baddump-lookup", "selfref"])}, "rej": {"kind": "subrejected"}}
+               "bad": {"kind": rng.choice(["baddump", "baddump-lookup", "selfref"])}, "rej": {"kind": "subrejected"}, "inf": {"kind": "inf"}}
     clients = []
     for ci in range(rng.randint(2, 3)):
         ops = []
         for oi in range(rng.randint(1, 2)):
             tok = "c%do%d" % (ci, oi)
-            m = rng.choice(["echo", "echo", "fail", "sub", "nope", "bad", "rej", "sub"])
+            m = rng.choice(["echo", "echo", "fail", "sub", "nope", "bad", "rej", "sub", "rpc.nope", "inf"])
             ops.append(["raw", rng.choice([
                 '{"method": "%s", "params": ["%s"], "id": "%s"}' % (m, tok, tok),
                 '{"method": "%s", "params": ["%s"], "id": "%s"}' % (m, tok, tok),
@@ -769,7 +794,8 @@ def gen_c13_full(rng):
                "slow": {"kind": "slow", "d": rng.choice([0.25, 0.5, 1.0])}, "sub": {"kind": "sub"},
                "bad": {"kind": rng.choice(["baddump", "baddump-lookup", "selfref"])},
                "err": {"kind": "sharedfault"}, "rej": {"kind": "subrejected"}, "quit": {"kind": "exit"}}
-    names = ["echo", "echo", "fail", "nope", "two", "slow", "slow", "fault", "sub", "bad", "err", "rej", "sub"]
+    methods["inf"] = {"kind": "inf"}
+    names = ["echo", "echo", "fail", "nope", "two", "slow", "slow", "fault", "sub", "bad", "err", "rej", "sub", "rpc.nope", "rpc.echo", "inf"]
     if not sv.get("custom_dispatch"):
         names.append("quit")  # sys.exit() inside a method: an error reply like any other (default dispatch only)
     sv["handlers"] = rng.random() < 0.4
